@@ -589,11 +589,13 @@ def run(prog, R):
 
     # ---------------- PAR-11
     def flows_to_try(body, term):
+        ok, _ = propagates(body, term.dest.local)
+        if ok:
+            return True
+        # handle.join() : Result<Result<(), Er>, Box<dyn Any>> — the panic payload is unwrapped, the inner result propagated
         for (k, tt, i, via) in forward_sinks(body, term.dest.local):
-            if k == 'call' and tt.callee and tt.callee.path == 'std::ops::Try::branch':
-                return True
-            if k == 'call' and tt.callee and tt.callee.path in ('std::result::Result::unwrap',):
-                if flows_to_try(body, tt):
+            if k == 'call' and tt.callee and tt.callee.path in ('std::result::Result::unwrap', 'std::result::Result::expect'):
+                if propagates(body, tt.dest.local)[0]:
                     return True
         return False
     n11 = {}
@@ -605,9 +607,9 @@ def run(prog, R):
                     if any(r.is_param(rpi.key, pi) for r in rs):
                         n11[nm] = n11.get(nm, 0) + 1
                         R.add('PAR-11', body, 'init-result-propagated:%s#%d' % (nm, n11[nm]), flows_to_try(body, t), site(body, t.line),
-                              'result of %s() flows into `?`' % nm)
+                              'the result of %s() is propagated to the caller (by `?` or an equivalent return)' % nm)
     for jb, jt in joins_h:
-        R.add('PAR-11', sc, 'join-result-propagated', flows_to_try(sc, jt), site(sc, jt.line), 'handle.join() result flows (through unwrap of the panic payload) into `?`')
+        R.add('PAR-11', sc, 'join-result-propagated', flows_to_try(sc, jt), site(sc, jt.line), 'the result of the reader thread (handle.join(), panic payload unwrapped) is propagated to the caller')
     R.floor('PAR-11', 4)
 
     # ---------------- PAR-12
@@ -617,33 +619,42 @@ def run(prog, R):
         for blk, t in body.calls():
             if not (t.callee and t.callee.is_(PRN)):
                 continue
-            sinks = forward_sinks(body, t.dest.local)
-            tries = [tt for (k, tt, i, via) in sinks if k == 'call' and tt.callee and tt.callee.path == 'std::ops::Try::branch']
-            # the item itself (the Result carried by Some) must be what `?` is applied to — not just a
-            # component taken out of its Ok payload (`while let Some(Ok(..))` would end the loop on an error)
-            whole = False
-            for tt in tries:
-                rs = roots_of(body, tt.args[0])
-                if any(r[0] == 'call' and r[1] is t and [q[2] for q in r[-1]] == ['Some'] for r in rs):
-                    whole = True
-            R.add('PAR-12', body, 'item-propagated', whole, site(body, t.line), 'the Result item of ParallelRecordsets::next is passed to `?` as a whole (an Err item cannot end the loop silently): %s' % whole)
-            # worker results that are Results
-            for tt in tries:
-                for (k2, t2, i2, via2) in forward_sinks(body, tt.dest.local):
-                    pass
-            # any local whose type is a Result and that derives from the item's payload .1
+            # the item (the Result carried by Some) is propagated as a whole: find the local holding `(next() as Some).0`
+            items = []
+            for x in body.cfg.reachable:
+                for st in body.blocks[x].stmts:
+                    if st.k == 'assign' and st.rv.k == 'use' and not st.rv.ops[0].is_const and st.place.is_local():
+                        pl = st.rv.ops[0].place
+                        if pl.local == t.dest.local and [q for q in pl.proj if q['k'] == 'downcast' and q['variant'] == 'Some'] \
+                                and len([q for q in pl.proj if q['k'] == 'field']) == 1:
+                            items.append(st.place.local)
+            whole = bool(items) and all(propagates(body, l)[0] for l in items)
+            R.add('PAR-12', body, 'item-propagated', whole, site(body, t.line),
+                  'the Result item of ParallelRecordsets::next is handed on to the caller as a whole on its Err side (an Err item cannot end the loop silently): %s' % whole)
+            # a Result computed by the worker (second component of the Ok payload)
             for li, ty in enumerate(body.local_tys):
-                if ty.startswith('std::result::Result<') and li not in (0,) and li > body.arg_count:
+                if ty.startswith('std::result::Result<') and li > body.arg_count:
                     rs = roots_of(body, Place({'l': li, 'p': []}))
                     if any(r[0] == 'call' and r[1] is t and r[-1] and r[-1][-1][0] == 1 for r in rs):
-                        s2 = forward_sinks(body, li)
-                        ok = any(k == 'call' and x.callee and x.callee.path == 'std::ops::Try::branch' for (k, x, i, v) in s2)
-                        R.add('PAR-12', body, 'worker-result-propagated', ok, site(body, t.line), 'the Result computed by the worker flows into `?`')
+                        ok, why = propagates(body, li)
+                        R.add('PAR-12', body, 'worker-result-propagated', ok, site(body, t.line), 'the Result computed by the worker is handed on to the caller: %s' % ok)
     R.floor('PAR-12', 5)
 
     # ---------------- PAR-4
     par4(prog, R, cx)
     return cx
+
+
+def propagates(body, local, payload_variant=None):
+    """the value in `local` (a Result, or the Result inside Some when payload_variant='Some') is
+    handed on to the caller of `body` on its Err side: it reaches the return place through `?`,
+    an explicit `return Err(..)`, From/Into, Err/Some aggregates — and is not dropped/swallowed"""
+    from rules_err import PROPAGATORS, SWALLOW
+    sinks = forward_sinks(body, local, follow_refs=True, through=PROPAGATORS, skip_variants=('Ok', 'Continue'))
+    ret = any(k == 'ret' and not via for (k, n, i, via) in sinks)
+    drops = [n for (k, n, i, via) in sinks if k == 'drop' and not via]
+    swallow = [n for (k, n, i, via) in sinks if k == 'call' and not via and n.callee and n.callee.path in SWALLOW and n.callee.path not in ('std::result::Result::unwrap', 'std::result::Result::expect')]
+    return ret and not drops and not swallow, (ret, len(drops), [x.callee.path for x in swallow])
 
 
 def par4(prog, R, cx):
